@@ -48,6 +48,7 @@ type Case struct {
 	Tier string
 	R    *rand.Rand
 	Dir  string // scratch dir on /dev/shm (removed after the case)
+	Root string // plainly named parent of Dir (the same as Dir unless the case works below a hostile name)
 
 	mu       sync.Mutex
 	res      *CaseResult
@@ -255,7 +256,7 @@ func RunCase(p *Prop, seed int64, tier string, idx int) *CaseResult {
 			}
 		}
 	}
-	c := &Case{Prop: p.ID, Seed: seed, Idx: idx, Tier: tier, Dir: caseDir, res: res,
+	c := &Case{Prop: p.ID, Seed: seed, Idx: idx, Tier: tier, Dir: caseDir, Root: dir, res: res,
 		R: rand.New(rand.NewSource(CaseSeed(p.ID, seed, idx)))}
 	func() {
 		defer func() {
